@@ -45,7 +45,7 @@ def precedence_level(node: mparser.BaseNode) -> int:
     raise MesonBugException('Unhandled node type')
 
 class AstPrinter(AstVisitor):
-    escape_trans: T.Dict[int, str] = str.maketrans({'\\': '\\\\', "'": "\'"})
+    escape_trans: T.Dict[int, str] = str.maketrans({'\\': '\\\\', "'": "\\'"})
 
     def __init__(self, indent: int = 2, arg_newline_cutoff: int = 5, update_ast_line_nos: bool = False):
         self.result = ''
